@@ -3,7 +3,7 @@
    parameters are split without loss.
    ONLY statements closed by `exact`, with Print Assumptions beneath each. *)
 From Coq Require Import ZArith List Bool Permutation.
-From Mesa Require Import Common.ListX Model.Viz Proofs.VizProofs.
+From Mesa Require Import Common.ListX Generated.Tables Model.Viz Proofs.VizProofs.
 Import ListNotations.
 Open Scope Z_scope.
 
@@ -127,6 +127,37 @@ Theorem C20_creator_checks_every_parameter : forall s ps,
 Proof. exact creator_checks_all. Qed.
 Print Assumptions C20_creator_checks_every_parameter.
 
+(* The thing the correspondence runs: at a DrawMpl operation anywhere in ANY history, the
+   observation produced by run_case is the canonical form (sorted rows) of exactly the required
+   markers - so "model = implementation" on that operation is literally "implementation = statement". *)
+Theorem C20_run_case_draw_is_statement : forall c pre post,
+  c_ops c = pre ++ DrawMpl :: post ->
+  let sp := c_space c in let pt := c_portrayal c in
+  let st := exec sp pt (init_state c) pre in
+  nth (length pre) (run_case c) [] = obs_rows (map mark_row (map (drawn_mark sp pt) (st_agents st))).
+Proof. exact run_case_draw. Qed.
+Print Assumptions C20_run_case_draw_is_statement.
+
+Theorem C20_collect_observation_is_statement : forall c ops,
+  let sp := c_space c in let pt := c_portrayal c in
+  let st := exec sp pt (init_state c) ops in
+  obs_collect sp pt (st_agents st) = obs_rows (map mark_row (map (the_mark pt (dflt_size sp)) (st_agents st))).
+Proof. exact obs_collect_spec. Qed.
+Print Assumptions C20_collect_observation_is_statement.
+
+Theorem C20_altair_observation_is_statement : forall c ops,
+  let sp := c_space c in let pt := c_portrayal c in
+  let st := exec sp pt (init_state c) ops in
+  ((sp_altair sp = 1 \/ sp_altair sp = 2) /\ grid_family sp) \/ (sp_altair sp = 3 /\ has_pos sp) ->
+  obs_altair sp pt (st_agents st) = obs_rows (map arow_row (map (arow_of pt) (st_agents st))).
+Proof. exact obs_altair_spec. Qed.
+Print Assumptions C20_altair_observation_is_statement.
+
+(* canonical observations: sorting forgets exactly the order *)
+Theorem C20_observation_canonical : forall l l', Permutation l l' -> obs_rows l = obs_rows l'.
+Proof. exact obs_rows_perm. Qed.
+Print Assumptions C20_observation_canonical.
+
 (* ------------------------------------------------------------------ non-vacuity *)
 Definition ex_space : space :=
   {| sp_family := Hex; sp_w := 3; sp_h := 2; sp_x0 := 0; sp_y0 := 0; sp_single := false;
@@ -202,3 +233,12 @@ Example C20_example_creator :
   step ex_space [] (init_state ex_case) (Creator ex_sig [(3, VSlider 5); (4, VFixed 1)]) = (init_state ex_case, [0]) /\
   step ex_space [] (init_state ex_case) (Creator ex_sig [(3, VSlider 5)]) = (init_state ex_case, [-1; 2]).
 Proof. vm_compute. split; reflexivity. Qed.
+
+Example C20_example_run_case :
+  run_case {| c_space := ex_space; c_portrayal := c_portrayal ex_case; c_layer := None;
+              c_ops := [Place 1 0 2 1; Place 2 1 2 1; DrawMpl; DrawAltair] |}
+  = [[0; 1; 2; 1; 7; 1; 3; 0; 2];
+     [0; 2; 2; 1; 7; 1; 3; 0; 2; 2; 1; 3600; 1; 0; 1; 1];
+     [0; 2; 4; 3; 7; 1; 3; 0; 2; 4; 3; 3600; 1; 0; 1; 1];
+     [0; 2; 2; 1; 0; 0; 0; 0; 1; 1; 0; 0; 2; 1; 1; 7; 1; 3; 0; 0; 1; 2]].
+Proof. vm_compute. reflexivity. Qed.
